@@ -6,21 +6,22 @@ import DymVerif.Lemmas.GenEqSpons
   Theorems about M-Spons (`Model/Spons.lean`, mirrored from x/sponsorship and the endorsement part of
   x/incentives, validated op by op against the real code by `harness/c16_test.go`).
 
-  Clauses of the property and their status on the CURRENT code:
-    (1) distribution = Σ votes                — exact under vote / revoke / claim / epoch / slash / fund
-                                                 (`vote_revoke_exact`); FALSE under the staking hooks
-                                                 (`…_counterexample`), true when every weighted split of the
-                                                 power difference is integral (`…_partial`)
+  Clauses of the property and their status on the code WITH the two repairs (fix: staking hook
+  replaces the voter's contribution exactly; fix: epoch hook acts on the distribution identifier only):
+    (1) distribution = Σ votes                — full strength, ALL histories (votes, revocations, staking
+                                                 hooks with any powers, slashes, claims, epoch ends, funding):
+                                                 `distribution_eq_sum_of_votes`
     (2) recorded power = bonded delegations   — FALSE after a validator slash (no hook fires);
                                                  true for slash-free histories with faithful hooks
     (3) below the minimum ⇒ the vote is gone  — the hook prunes exactly (`hook_below_min_prunes`); every
                                                  RECORDED power is ≥ min in all histories; w.r.t. the bonded
                                                  power FALSE after a slash
-    (4) at most one claim per epoch, none in the vote epoch — true between two epoch ends of ANY
-                                                 identifier; FALSE w.r.t. the distribution epoch that defines
-                                                 the allotment (the blacklist is reset by every identifier)
+    (4) at most one claim per epoch, none in the vote epoch — full strength w.r.t. the x/incentives
+                                                 distribution epoch: `claim_once_per_epoch`, `no_claim_in_vote_epoch`
     (5) claims ≤ allotment                    — FALSE (claim uses current power against the snapshot);
-                                                 true for claim-only histories after a covering snapshot
+                                                 true for claim-only histories after a covering snapshot, in
+                                                 particular after every distribution-epoch end (shares are exact
+                                                 in all histories: `endorsement_shares_exact`)
 -/
 namespace DymVerif.Props.C16
 open DymVerif.Spons
@@ -63,73 +64,41 @@ theorem pow_eq_gaugePower {v : Vote} (h : VoteOK v) (g : Nat) :
 theorem vote_revoke_exact (s : State) (op : Op)
     (hop : (∃ a ws, op = .vote a ws) ∨ (∃ a, op = .revoke a)) (wf : WF s) (inv : DistInv s) :
     WF (step s op).1 ∧ DistInv (step s op).1 := by
-  rcases hop with ⟨a, ws, rfl⟩ | ⟨a, rfl⟩ <;> exact step_good wf inv trivial
+  rcases hop with ⟨a, ws, rfl⟩ | ⟨a, rfl⟩ <;> exact step_good wf inv
 
 example : (step (step s0 (stake 0 0 7)).1 (.vote 0 [(2, half), (1, 1)])).2.1 = none := by decide
 
-/- **distribution_eq_sum_of_votes** (full statement — FALSE on the current code, see the counterexample):
-     ∀ s ops, WF s → DistInv s → DistInv (run s ops)
-   The staking hook merges `applyWeights(new − old)` instead of `applyWeights(new) − applyWeights(old)`. -/
-
-/-- **distribution_eq_sum_of_votes_partial** — through every history (votes, revocations, staking
-    hooks, slashes, claims, epoch ends, funding) in which each hook's power difference splits
-    integrally over the voter's weights, the distribution stays the sum over the votes. -/
-theorem distribution_eq_sum_of_votes_partial (s : State) (ops : List Op) (wf : WF s) (inv : DistInv s)
-    (hd : RunDivisible s ops) : WF (run s ops) ∧ DistInv (run s ops) := by
+/-- **distribution_eq_sum_of_votes** — through EVERY history (votes, revocations, staking hooks with
+    arbitrary old/new powers, validator slashes, claims, epoch ends, funding) the distribution stays,
+    gauge by gauge, the sum over the current votes of the vote's power split by its weights, and its
+    total the sum of the votes' powers. -/
+theorem distribution_eq_sum_of_votes (s : State) (ops : List Op) (wf : WF s) (inv : DistInv s) :
+    WF (run s ops) ∧ DistInv (run s ops) := by
   induction ops generalizing s with
   | nil => exact ⟨wf, inv⟩
   | cons op ops ih =>
-    have := step_good wf inv hd.1
-    exact ih _ this.1 this.2 hd.2
+    have := step_good (op := op) wf inv
+    exact ih _ this.1 this.2
 
-def noStaking : Op → Bool
-  | .staking _ _ _ => false
-  | _ => true
+/-- from the genesis state -/
+theorem distribution_eq_sum_of_votes_from_init (ma mv : Int) (h : 0 ≤ mv) (ops : List Op) :
+    DistInv (run (State.init ma mv) ops) :=
+  (distribution_eq_sum_of_votes _ ops (init_wf ma mv h) (init_distInv ma mv)).2
 
-theorem runDivisible_of_noStaking (s : State) (ops : List Op) (h : ∀ op ∈ ops, noStaking op = true) :
-    RunDivisible s ops := by
-  induction ops generalizing s with
-  | nil => trivial
-  | cons op ops ih =>
-    refine ⟨?_, ih _ (fun o ho => h o (by simp [ho]))⟩
-    have := h op (by simp)
-    cases op <;> first | trivial | (simp [noStaking] at this)
+/-- consequence: no gauge ever has negative power in the distribution -/
+theorem distribution_power_nonneg (s : State) (ops : List Op) (wf : WF s) (inv : DistInv s) (g : Nat) :
+    0 ≤ gget (run s ops).dist.gauges g := by
+  have h := distribution_eq_sum_of_votes s ops wf inv
+  rw [h.2.gauges g]
+  exact vsum_nonneg _ (fun x hx => (h.1.votes x hx).pow_nonneg g)
 
-/-- hook-free histories need no hypothesis at all -/
-theorem distribution_eq_sum_of_votes_without_hooks (s : State) (ops : List Op) (wf : WF s) (inv : DistInv s)
-    (h : ∀ op ∈ ops, noStaking op = true) : DistInv (run s ops) :=
-  (distribution_eq_sum_of_votes_partial s ops wf inv (runDivisible_of_noStaking s ops h)).2
-
-/-- non-vacuity: a hook with an integral split (10 → 20 at 50 %) -/
-example : RunDivisible s0 [stake 0 0 10, .vote 0 [(2, half)], stake 0 0 20] := by
-  refine ⟨?_, trivial, ?_, trivial⟩
-  · exact ⟨fun v hv => (by cases hv), fun _ _ => trivial⟩
-  · refine ⟨?_, fun _ _ => trivial⟩
-    intro v hv _
-    have : v = ⟨10, [(2, half)]⟩ := by
-      have h : some (⟨10, [(2, half)]⟩ : Vote) = some v := by rw [← hv]; decide
-      exact (Option.some.inj h).symm
-    subst this
-    intro w hw
-    simp only [List.mem_singleton] at hw
-    subst hw
-    decide
-
-/-- F9 — 5 → 6 at a weight of 50 %: the hook adds ⌊1·½⌋ = 0, the distribution keeps 2, the vote implies 3 -/
+/-- the former F9 witness — 5 → 6 at a weight of 50 %: the distribution now follows the vote (3) -/
 def f9ops : List Op := [stake 0 0 5, .vote 0 [(2, half)], stake 0 0 6]
 
-theorem distribution_eq_sum_of_votes_counterexample :
-    ∃ s ops, WF s ∧ DistInv s ∧ ¬ DistInv (run s ops) :=
-  ⟨s0, f9ops, s0_wf, s0_distInv, fun h => absurd (h.gauges 2) (by decide)⟩
+example : gget (run s0 f9ops).dist.gauges 2 = 3 ∧ vsum (fun v => v.pow 2) (run s0 f9ops).votes = 3 := by decide
 
-example : gget (run s0 f9ops).dist.gauges 2 = 2 ∧ vsum (fun v => v.pow 2) (run s0 f9ops).votes = 3 := by decide
-
-/-- `Merge` filters non-positive powers only inside its loop: once a hook has lost a unit, pruning
-    the vote leaves a NEGATIVE power in the distribution (1 at 50 % → 0; +1 → hook adds 0, vote implies 1;
-    undelegate all → the vote's −1 is appended unfiltered) -/
-theorem distribution_negative_power_example :
-    (run s0 [stake 0 0 1, .vote 0 [(2, half)], stake 0 0 2, stake 0 0 0]).dist.gauges = [(2, -1)] ∧
-    (run s0 [stake 0 0 1, .vote 0 [(2, half)], stake 0 0 2, stake 0 0 0]).votes = [] := by decide
+/-- the former negative-power witness: pruning after a hook leaves an empty distribution -/
+example : (run s0 [stake 0 0 1, .vote 0 [(2, half)], stake 0 0 2, stake 0 0 0]).dist = ⟨0, []⟩ := by decide
 
 /-! ## (2) recorded power = bonded delegations -/
 
@@ -188,9 +157,9 @@ theorem hook_below_min_prunes (s : State) (a val : Nat) (v : Vote) (old new : In
 
 /-- and the distribution stays exact when the hook prunes -/
 theorem hook_below_min_exact (s : State) (a val : Nat) (v : Vote) (old new : Int) (wf : WF s) (inv : DistInv s)
-    (hv : s.vote? a = some v) (hlow : v.vp + (new - old) < s.minVP) :
+    (hv : s.vote? a = some v) (_hlow : v.vp + (new - old) < s.minVP) :
     DistInv (s.processHook a val v old new) :=
-  (processHook_inv wf inv hv (fun h => absurd h (by omega))).2
+  (processHook_inv wf inv hv).2
 
 /-- **min_power_recorded** — in ALL histories every stored vote's recorded power is at least the minimum -/
 theorem min_power_recorded (s : State) (ops : List Op) (hm : MinInv s) : MinInv (run s ops) := by
@@ -224,22 +193,17 @@ theorem below_min_prunes_vote_counterexample :
 
 /-! ## (4) claims: once per epoch, not in the vote epoch -/
 
-/- **claim_once_per_epoch** / **no_claim_in_vote_epoch** (full statements, "epoch" = the distribution
-   epoch of x/incentives that fixes the allotment `EpochRewards` — FALSE on the current code):
-     between two `epochEnd true` ops a voter has at most one accepted claim, and none after voting.
-   `EpochHooks.AfterEpochEnd` ignores the epoch identifier: the end of ANY epoch (hour, day) clears the
-   blacklist and re-snapshots the shares while `EpochRewards` stays. -/
-
-/-- **claim_once_per_epoch_partial** — after an accepted claim every further claim of the same voter
-    (any gauge) is rejected until an epoch of some identifier ends, whatever else happens. -/
-theorem claim_once_per_epoch_partial (s s1 : State) (a g g' : Nat) (p : Int) (ops : List Op)
+/-- **claim_once_per_epoch** — after an accepted claim every further claim of the same voter (any
+    gauge) is rejected until the x/incentives distribution epoch — the one that fixes the allotment
+    `EpochRewards` — ends, whatever else happens (ends of other epochs included). -/
+theorem claim_once_per_epoch (s s1 : State) (a g g' : Nat) (p : Int) (ops : List Op)
     (hc : s.claim a g = .ok (s1, p)) (hne : ∀ op ∈ ops, isEpochEnd op = false) :
     (run s1 ops).claim a g' = .error .cannotClaim :=
   claim_blocked (run_blacklist (by rw [claim_blacklist hc]; simp) hne) g'
 
-/-- **no_claim_in_vote_epoch_partial** — after an accepted vote the voter cannot claim until an
-    epoch of some identifier ends. -/
-theorem no_claim_in_vote_epoch_partial (s s1 : State) (a g : Nat) (ws : List GP) (ops : List Op)
+/-- **no_claim_in_vote_epoch** — after an accepted vote the voter cannot claim until the distribution
+    epoch ends. -/
+theorem no_claim_in_vote_epoch (s s1 : State) (a g : Nat) (ws : List GP) (ops : List Op)
     (hv : s.vote a ws = .ok s1) (hne : ∀ op ∈ ops, isEpochEnd op = false) :
     (run s1 ops).claim a g = .error .cannotClaim :=
   claim_blocked (run_blacklist (vote_blacklist hv).1 hne) g
@@ -250,16 +214,13 @@ def claimWorld : State :=
 
 example : (step claimWorld (.claim 0 3)).2 = (none, 50) := by decide
 
-/-- a0 claims 50, an HOUR epoch ends (`epochEnd false`: same distribution epoch, same allotment), a0 claims
-    50 again -/
-theorem claim_once_per_epoch_counterexample :
-    (step claimWorld (.claim 0 3)).2 = (none, 50) ∧
-    (step (run claimWorld [.claim 0 3, .epochEnd false]) (.claim 0 3)).2 = (none, 50) := by decide
+/-- the former witnesses: an hour epoch ends (`epochEnd false`) — the second claim, and the claim in the
+    vote epoch, are now rejected -/
+example : (step (run claimWorld [.claim 0 3, .epochEnd false]) (.claim 0 3)).2.1 = some .cannotClaim := by decide
 
-/-- a2 votes in the running distribution epoch, an hour epoch ends, a2 claims from that epoch's allotment -/
-theorem no_claim_in_vote_epoch_counterexample :
-    (step (run claimWorld [stake 2 0 20]) (.vote 2 [(1, full)])).2.1 = none ∧
-    (step (run claimWorld [stake 2 0 20, .vote 2 [(1, full)], .epochEnd false]) (.claim 2 3)).2 = (none, 50) := by decide
+example : (step (run claimWorld [stake 2 0 20]) (.vote 2 [(1, full)])).2.1 = none ∧
+    (step (run claimWorld [stake 2 0 20, .vote 2 [(1, full)], .epochEnd false]) (.claim 2 3)).2.1
+      = some .cannotClaim := by decide
 
 /-! ## (5) claims never exceed the epoch's allotment -/
 
@@ -268,7 +229,7 @@ theorem no_claim_in_vote_epoch_counterexample :
    `EstimateClaim` multiplies the CURRENT power of the vote by EpochRewards / EpochShares (snapshot). -/
 
 /-- **claims_le_allotment_partial** — if the snapshot covers the power of the voters who can still
-    claim (true right after an epoch end when the shares are exact), any sequence of claims by any
+    claim (true right after a distribution-epoch end, see below), any sequence of claims by any
     voters on any gauges takes at most the allotment `R` out of gauge `gid`. -/
 theorem claims_le_allotment_partial (s : State) (gid r : Nat) (e : Endorsement) (R : Int) (ops : List Op)
     (ctx : ClaimCtx s gid r e R) (hR : 0 ≤ R) (hS : 0 < e.epoch)
@@ -291,17 +252,17 @@ example : ClaimCtx claimWorld 3 0 ⟨0, 1, 20, 20⟩ 100 ∧
     simp only [List.mem_cons, List.mem_nil_iff, or_false] at this
     rcases this with rfl | rfl <;> decide
 
-/-- **endorsement_shares_partial** — along every history whose hooks split integrally, the total
-    shares of a rollapp's endorsement are the sum over the votes of their power on the rollapp gauge -/
-theorem endorsement_shares_partial (s : State) (ops : List Op) (r rg : Nat) (wf : WF s) (inv : DistInv s)
-    (hg : RaGauge s r rg) (hs : ShareInv s r rg) (hd : RunDivisible s ops) :
+/-- **endorsement_shares_exact** — along EVERY history the total shares of a rollapp's endorsement
+    are the sum over the votes of their power on the rollapp gauge -/
+theorem endorsement_shares_exact (s : State) (ops : List Op) (r rg : Nat) (wf : WF s) (inv : DistInv s)
+    (hg : RaGauge s r rg) (hs : ShareInv s r rg) :
     ShareInv (run s ops) r rg ∧ RaGauge (run s ops) r rg := by
   induction ops generalizing s with
   | nil => exact ⟨hs, hg⟩
   | cons op ops ih =>
-    have g := step_good wf inv hd.1
-    have sh := step_share wf inv hg hs hd.1
-    exact ih _ g.1 g.2 sh.2 sh.1 hd.2
+    have g := step_good (op := op) wf inv
+    have sh := step_share (op := op) wf inv hg hs
+    exact ih _ g.1 g.2 sh.2 sh.1
 
 /-- non-vacuity: in `s0` gauge 1 is the one rollapp gauge of r0 and the shares are exact -/
 theorem s0_raGauge : RaGauge s0 0 1 := by
@@ -322,53 +283,41 @@ theorem s0_raGauge : RaGauge s0 0 1 := by
 
 example : ShareInv s0 0 1 := rfl
 
-example : RunDivisible s0 [stake 0 0 10, .vote 0 [(1, half)], stake 0 0 20] ∧
-    ShareInv (run s0 [stake 0 0 10, .vote 0 [(1, half)], stake 0 0 20]) 0 1 ∧
-    totalOf (run s0 [stake 0 0 10, .vote 0 [(1, half)], stake 0 0 20]).endorsements 0 = 10 := by
-  refine ⟨⟨⟨fun v hv => (by cases hv), fun _ _ => trivial⟩, trivial, ⟨?_, fun _ _ => trivial⟩, trivial⟩, by unfold ShareInv; decide, by decide⟩
-  intro v hv _
-  have : v = ⟨10, [(1, half)]⟩ := by
-    have h : some (⟨10, [(1, half)]⟩ : Vote) = some v := by rw [← hv]; decide
-    exact (Option.some.inj h).symm
-  subst this
-  intro w hw
-  simp only [List.mem_singleton] at hw
-  subst hw
-  decide
+example : ShareInv (run s0 [stake 0 0 10, .vote 0 [(1, half)], stake 0 0 21]) 0 1 ∧
+    totalOf (run s0 [stake 0 0 10, .vote 0 [(1, half)], stake 0 0 21]).endorsements 0 = 10 := by
+  refine ⟨by unfold ShareInv; decide, by decide⟩
 
-theorem epochEnd_endorsements (s : State) (d : Bool) :
-    (s.epochEnd d).endorsements = s.endorsements.map (fun e => { e with epoch := e.total }) ∧
-    (s.epochEnd d).blacklist = [] := by
-  cases d
-  · exact ⟨rfl, rfl⟩
-  · refine ⟨?_, rfl⟩
-    show (s.incentivesEpochEnd.endorsements).map _ = _
-    unfold State.incentivesEpochEnd; simp only; split <;> rfl
+theorem epochEnd_endorsements (s : State) :
+    (s.epochEnd true).endorsements = s.endorsements.map (fun e => { e with epoch := e.total }) ∧
+    (s.epochEnd true).blacklist = [] := by
+  refine ⟨?_, rfl⟩
+  show (s.incentivesEpochEnd.endorsements).map _ = _
+  unfold State.incentivesEpochEnd; simp only; split <;> rfl
 
-/-- **claims_le_allotment_after_epoch_end_partial** — if the shares are exact when an epoch (of any
-    identifier) ends, then whatever claims follow (and nothing else), the endorsement gauge `eg` of
-    rollapp `r` pays at most its epoch rewards `R`. -/
-theorem claims_le_allotment_after_epoch_end_partial (s : State) (d : Bool) (r rg eg : Nat) (R : Int)
+/-- **claims_le_allotment_after_epoch_end_partial** — the shares are exact when the distribution epoch
+    ends (`endorsement_shares_exact`), so whatever claims follow (and nothing else), the endorsement
+    gauge `eg` of rollapp `r` pays at most its epoch rewards `R`. -/
+theorem claims_le_allotment_after_epoch_end_partial (s : State) (r rg eg : Nat) (R : Int)
     (ops : List Op) (wf : WF s) (hs : ShareInv s r rg) (e : Endorsement)
     (he : s.endorsement? r = some e) (heg : e.gaugeId = rg) (hpos : 0 < e.total)
-    (hG : GaugeIs (s.epochEnd d) eg r R) (hR : 0 ≤ R) (hall : ∀ op ∈ ops, isClaim op = true) :
-    runPaid (s.epochEnd d) eg ops ≤ R := by
-  have hee := epochEnd_endorsements s d
-  have hcore := (epochEnd_core s d).1
-  have he' : (s.epochEnd d).endorsement? r = some { e with epoch := e.total } := by
+    (hG : GaugeIs (s.epochEnd true) eg r R) (hR : 0 ≤ R) (hall : ∀ op ∈ ops, isClaim op = true) :
+    runPaid (s.epochEnd true) eg ops ≤ R := by
+  have hee := epochEnd_endorsements s
+  have hcore := (epochEnd_core s true).1
+  have he' : (s.epochEnd true).endorsement? r = some { e with epoch := e.total } := by
     unfold State.endorsement?
     rw [hee.1, find_map_r (f := fun e => { e with epoch := e.total }) (fun _ => rfl)]
     unfold State.endorsement? at he
     rw [he]; rfl
   have hpow : ∀ x ∈ s.votes, x.2.gaugePower rg = x.2.pow rg :=
     fun x hx => ((pow_eq_gaugePower (wf.votes x hx) rg).1).symm
-  have hcov : usum (s.epochEnd d).blacklist rg (s.epochEnd d).votes = e.total := by
+  have hcov : usum (s.epochEnd true).blacklist rg (s.epochEnd true).votes = e.total := by
     rw [hee.2, hcore.votes, usum_nil_eq, vsum_congr (f := fun v => v.gaugePower rg) (g := fun v => v.pow rg) hpow]
     have : totalOf s.endorsements r = e.total := by
       unfold totalOf; unfold State.endorsement? at he; rw [he]
     rw [← this]; exact hs.symm
   subst heg
-  refine claims_le_allotment_partial (s.epochEnd d) eg r { e with epoch := e.total } R ops
+  refine claims_le_allotment_partial (s.epochEnd true) eg r { e with epoch := e.total } R ops
     ⟨hG, he', hcore.votes ▸ wf.keys, ?_⟩ hR hpos (Int.le_of_eq hcov) hall
   intro x hx
   rw [hcore.votes] at hx
